@@ -101,12 +101,23 @@ HANDMADE = [
     ('fixed', 'pragma solidity 0.8.10;\ncontract F {\n  uint constant K = 3;\n  function f(uint a) external pure returns (uint) { return a + K; }\n}\n'),
     ('pre08', 'pragma solidity ^0.7.6;\ncontract O {\n  function f(uint a) public pure returns (uint) {\n    return a * 2;\n  }\n}\n'),
     ('nothing', PRAGMA),
+    ('empty', ''), ('blank-lf', '\n\n\n'), ('blank-spaces', '  \n\t\n   '), ('blank-crlf', '\r\n\r\n'), ('only-comment', '// nothing here\n\n/* at\n all */\n'),
+    ('leading-blank', '\n\n   \n' + PRAGMA + 'contract LB {\n  function f(uint a) public pure returns (uint) {\n    return a * 2;\n  }\n  function g() private {}\n}\n'),
+    ('leading-blank-crlf', '\r\n\r\n' + PRAGMA + 'contract LC {\r\n  uint x;\r\n  function f(uint a) public {\r\n    x = a + 1;\r\n  }\r\n  function g() private {}\r\n}\r\n   \r\n'),
     ('crlf', 'pragma solidity ^0.8.10;\r\ncontract W {\r\n  function f(uint a) public pure returns (uint) {\r\n    return a * 2;\r\n  }\r\n}\r\n'),
     ('unicode', PRAGMA + '// é ü\ncontract U {\n  string s = unicode"héllo";\n  function f(uint a) public pure returns (uint) { return a * 4; }\n}\n'),
 ]
 GARBAGE = [b'this is not solidity {{{', b'', b'\xff\xfe\x00\x01binary\x80\x81', b'contract {', b'\x00' * 17,
            b'pragma solidity ^0.8.0;\ncontract T { function f(uint a) public { a = a * 2; } }\n']
 UNREADABLE = b'\xff\xfepragma solidity ^0.8.0;\n\x80'
+
+
+EDGE_NAMES = ('empty', 'blank-lf', 'blank-spaces', 'blank-crlf', 'only-comment', 'leading-blank', 'leading-blank-crlf', 'nothing')
+
+
+def edge_contents():
+    """contents without any token, or with blank lines before the first one: files a walker may want to treat specially"""
+    return [s.encode('utf-8') for n, s in HANDMADE if n in EDGE_NAMES]
 
 
 def source_pool(rng):
@@ -457,7 +468,12 @@ def parse_dir_output(lines):
 def run_impl(hz, runs, rng, keep=False):
     for r in runs:
         _counter[0] += 1
-        root = os.path.join(FSROOT, 'r%d' % _counter[0])
+        # five root paths are used over and over (each tree is removed after its run): within one harness process the
+        # same path names files of different contents, one run after the other - what is remembered per PATH from an
+        # earlier analysis must not reach a later one.  Trees that are kept get a path of their own.
+        root = os.path.join(FSROOT, ('k%d' % _counter[0]) if keep else ('r%d' % (_counter[0] % 5)))
+        shutil.rmtree(root, ignore_errors=True)
+        shutil.rmtree(root + '.targets', ignore_errors=True)
         materialize(r.tree, root, rng, r.order)
         out = hz.req('dir %s %s %s' % (hx(root), r.cat, ','.join(r.ps) if r.ps else '-'))
         r.listing, r.impl = parse_dir_output(out)
